@@ -83,7 +83,7 @@ func main() {
 		runShard(t0, shard, shards)
 		return
 	}
-	hk.Rule("fault cases: the 14-step exchange (LinkNode, MonitorNode, Link/Monitor on pid, registered name, alias, event, Call pid, Send pid, Call name, Call alias) is profiled without a fault; a case = dial orientation {survivor dialed, victim dialed} x fault {cut relayed link, StopForce, Stop, kill target, target exits with custom reason} x step x position {injected by the harness before the step; when the first request byte reaches the relay; after n request bytes; right after the last request byte; likewise for the response}; quick = every 5th case of the enumeration (offset by the seed) with one mid-frame offset per frame, thorough = all cases with many mid-frame offsets. A case is non-trivial iff the fault really fired while a step of the exchange was in flight or about to start and at least two relation requests had returned nil before (measured from the relay counters and the request results). distinct = orientation x fault x step x position class. incarnation cases: orientation of the reconnect x Stop/StopForce x direct/relayed, non-trivial iff the new incarnation reused the numeric process id of the old one and a call to it succeeded.")
+	hk.Rule("fault cases: the 14-step exchange (LinkNode, MonitorNode, Link/Monitor on pid, registered name, alias, event, Call pid, Send pid, Call name, Call alias) is profiled without a fault; a case = dial orientation {survivor dialed, victim dialed} x fault {cut relayed link, StopForce, Stop, kill target, target exits with custom reason} x step x position {injected by the harness before the step; when the first request byte reaches the relay; after n request bytes; right after the last request byte; likewise for the response}; quick = every 5th case of the enumeration (offset by the seed) with one mid-frame offset per frame, thorough = all cases with many mid-frame offsets. A case is non-trivial iff the fault really fired while a step of the exchange was in flight or about to start and at least two relation requests had returned nil before (measured from the relay counters and the request results). distinct = orientation x fault x step x position class. re-arm cases: dial orientation x {StopForce, Stop, cut+StopForce} x number of watchers; every watcher holds LinkNode (plus links on pid/name/alias/event) and re-arms (LinkNode/MonitorNode/Link/Monitor) from inside its MessageExitNode handler while the node-down fan-out is parked at the wake-up of the only MonitorNode holder (yield point proc.run.wake); non-trivial iff at least one re-arm request returned while the fan-out was parked. incarnation cases: orientation of the reconnect x Stop/StopForce x direct/relayed, non-trivial iff the new incarnation reused the numeric process id of the old one and a call to it succeeded.")
 	hk.Assume("one TCP link per connection (pool size 1), so cutting the relayed link is the loss of the connection")
 	hk.Assume("a process whose exit signal is not trappable (parent is the node core) counts as notified when it is terminated with the reason; observers are therefore children of an ordinary process")
 	hk.Assume("stuck-state witness: survivor has no connection entry for the victim, observer Sleep with empty mailbox and no runner, unchanged for 5 s => the missing notification will never come (node-down fan-out is a non-blocking in-memory loop)")
@@ -158,6 +158,23 @@ func runShard(t0 time.Time, shard, shards int) {
 		incs = append(incs, incCase{Dialer: "A", Stop: "stopforce", Via: "auto", Rep: rep})
 		incs = append(incs, incCase{Dialer: "A", Stop: "stop", Via: "auto", Rep: rep})
 	}
+	var rearms []rearmCase
+	for rep := 0; rep < hk.Pick(1, 3); rep++ {
+		for _, d := range []string{"A", "B"} {
+			for _, st := range []string{"stopforce", "stop", "cut+stopforce"} {
+				for _, w := range []int{4, 12, 32} {
+					if !hk.Thorough() && w != 12 && !(w == 32 && st == "stopforce") {
+						continue
+					}
+					rearms = append(rearms, rearmCase{Dialer: d, Stop: st, Watchers: w, Rep: rep})
+				}
+			}
+		}
+	}
+	for _, rc := range rearms {
+		rc := rc
+		jobs = append(jobs, func() { runRearmCase(reg, rc) })
+	}
 	for _, ic := range incs {
 		ic := ic
 		jobs = append(jobs, func() { runIncarnationCase(reg, ic) })
@@ -200,6 +217,7 @@ func runShard(t0 time.Time, shard, shards int) {
 	if shard == 0 {
 		hk.Stat("fault_cases_scheduled", int64(nFault))
 		hk.Stat("incarnation_cases_scheduled", int64(len(incs)))
+		hk.Stat("rearm_cases_scheduled", int64(len(rearms)))
 	}
 	if shards == 1 {
 		hk.Note("wall_seconds", int(time.Since(t0).Seconds()))
